@@ -267,7 +267,7 @@ impl Check for C03 {
         "C03"
     }
     fn workloads(&mut self, tier: Tier, _seed: u64) -> Vec<(String, u64)> {
-        let k = if tier == Tier::Quick { 1 } else { 16 };
+        let k = if tier == Tier::Quick { 8 } else { 64 };
         vec![("corpus".into(), docs::corpus().len() as u64), ("render".into(), 120_000 * k), ("render-transformed".into(), 60_000 * k), ("render-mut".into(), 40_000 * k), ("corpus-mut".into(), 40_000 * k)]
     }
     fn run(&mut self, ctx: &mut Ctx, workload: &str, index: u64, rng: &mut Rng) {
